@@ -3,6 +3,7 @@ package props
 import (
 	"bufio"
 	"bytes"
+	"errors"
 	"io"
 	"testing"
 
@@ -255,7 +256,7 @@ func checkC16(c CaseC16, x *hx.Ctx) *hx.Failure {
 		off, err = packet.Sync(r)
 	}
 	if want < 0 {
-		if err != gots.ErrSyncByteNotFound {
+		if !errors.Is(err, gots.ErrSyncByteNotFound) {
 			return hx.Failf("sync-notfound", "no plausible header in the stream but Sync returned (%d, %v), want ErrSyncByteNotFound; stream %x (pad %d)", off, err, head(c.Stream, 64), c.PadLen)
 		}
 		return nil
